@@ -3,14 +3,26 @@
  * the real NLReader<SymReader, SolverNLHandlerImpl<BasicSolver, MockPB, NLProblemBuilder<MockPB>>> parses its token stream and the real
  * handler/builder logic decides what reaches the recording builder.  The oracle interprets the same segment list directly. */
 #include "vf_harness.h"
-#ifndef NSEG
-#define NSEG 4
+/* enumerated shape (one harness instance per shape): the sequence of segment types, the number of linear terms of each G segment, the
+ * number of variables and the reader flags are concrete, so that every read position is concrete and symbolic execution follows one
+ * control path; every index, sense, coefficient, constant, the objective count and the option state stay symbolic */
+#ifndef SEGS
+#define SEGS { 0, 2 }
+#define NTS { 0, 0 }
+#define NSEG 2
 #endif
+#ifndef NUMVARS
+#define NUMVARS 2
+#endif
+#ifndef FLAGS
+#define FLAGS 0
+#endif
+static const u32 seg_types[NSEG] = SEGS; static const u32 seg_nt[NSEG] = NTS;
 #define MAXV 2
 #define MAXO 3
 enum { SEG_O = 0, SEG_G = 1, SEG_B = 2 };
 struct seg { u32 type, idx, otype, ecode, evar, nterms, tvar[MAXV]; double ecoef, tcoef[MAXV]; };
-static struct seg segs[NSEG]; static u32 nseg, num_vars, num_objs;
+static struct seg segs[NSEG]; static const u32 nseg = NSEG, num_vars = NUMVARS; static u32 num_objs;
 static int tok_mismatch; static const char *tok_msg;
 /* ----- token source: cursor = seg * 16 + field ----- */
 enum { T_CHAR, T_UINT, T_DBL, T_EOL, T_END };
@@ -37,29 +49,38 @@ static int tok_at(u32 si, u32 f, s64 *iv, double *dv) {
   if (f == 0) { *iv = 'b'; return T_CHAR; } if (f == 1) return T_EOL;
   if ((f - 2) % 2 == 0) { *iv = '3'; return T_CHAR; } return T_EOL;      /* bound kind 3 = free */
 }
-static void advance(u32 *pos) {
-  u32 si = *pos >> 4, f = (*pos & 15) + 1;
+u32 vf_tk_pos, vf_tk_err; u64 vf_tk_len;
+static u32 advance(u32 pos) {
+  u32 si = pos >> 4, f = (pos & 15) + 1;
   if (si < nseg && f >= (u32)seg_len(&segs[si])) { si++; f = 0; }
-  *pos = (si << 4) | f;
+  return (si << 4) | f;
 }
-static int take(u32 *pos, int want, s64 *iv, double *dv) {
-  int k = tok_at(*pos >> 4, *pos & 15, iv, dv);
-  if (k == T_END) { *pos = (nseg + 1) << 4; return 0; }       /* past the end: char 0 / read error */
-  if (k != want) { if (!tok_mismatch) tok_msg = "reader asked for a token of another type than the NL format has at this position"; tok_mismatch = 1; return 0; }
-  advance(pos); return 1;
+static int expect_bad;
+/* a read error ends the explored path right here (after checking that the oracle expects one): error paths must not be merged back,
+ * or the cursor would become a symbolic value and symbolic execution would have to explore every segment type at every position */
+static void error_point(const char *why) {
+  VF_ASSERT(expect_bad, "the reader raises a read error only for a file with an out-of-range index/count");
+  VF_REQUIRE(0);
 }
-u32 vf_tk_char(char *pos) { s64 iv; double dv; return take((u32 *)pos, T_CHAR, &iv, &dv) ? (u32)iv : 0; }
-u32 vf_tk_uint(char *pos, char *err) { s64 iv; double dv; if (!take((u32 *)pos, T_UINT, &iv, &dv)) { *(u32 *)err = 1; return 0; }
-  if (iv > 0x7fffffff) { *(u32 *)err = 1; return 0; }         /* token layer: ReadUInt rejects numbers > INT_MAX */
+static int take(u32 pos, int want, s64 *iv, double *dv) {
+  vf_tk_err = 0;
+  int k = tok_at(pos >> 4, pos & 15, iv, dv);
+  if (k == T_END) { vf_tk_pos = (u32)((nseg + 1) << 4); if (want != T_CHAR) { VF_ASSERT(0, "reader reads past the end of a well-formed segment list"); VF_REQUIRE(0); } return 0; }
+  if (k != want) { VF_ASSERT(0, "reader asked for a token of another type than the NL format has at this position"); VF_REQUIRE(0); }
+  vf_tk_pos = (u32)advance(pos); return 1;
+}
+u32 vf_tk_char(u32 pos) { s64 iv; double dv; return take(pos, T_CHAR, &iv, &dv) ? (u32)iv : 0; }
+u32 vf_tk_uint(u32 pos) { s64 iv; double dv; if (!take(pos, T_UINT, &iv, &dv)) return 0;
+  /* all generated integers are 31-bit values: the token layer's 'number is too big' error cannot arise here */
   return (u32)iv; }
-u64 vf_tk_int(char *pos, u32 width, char *err) { s64 iv; double dv; if (!take((u32 *)pos, T_UINT, &iv, &dv)) { *(u32 *)err = 1; return 0; } return (u64)iv; }
-double vf_tk_double(char *pos, char *err) { s64 iv; double dv; if (!take((u32 *)pos, T_DBL, &iv, &dv)) { *(u32 *)err = 1; return 0; } return dv; }
-char *vf_tk_name(char *pos, char *len, char *err) { *(u32 *)err = 1; return 0; }
-char *vf_tk_string(char *pos, char *len, char *err) { *(u32 *)err = 1; return 0; }
-void vf_tk_eol(char *pos, char *err) { s64 iv; double dv; if (!take((u32 *)pos, T_EOL, &iv, &dv)) *(u32 *)err = 1; }
+u64 vf_tk_int(u32 pos, u32 width) { s64 iv; double dv; if (!take(pos, T_UINT, &iv, &dv)) return 0; return (u64)iv; }
+double vf_tk_double(u32 pos) { s64 iv; double dv; if (!take(pos, T_DBL, &iv, &dv)) return 0; return dv; }
+char *vf_tk_name(u32 pos) { VF_ASSERT(0, "no names in this file"); VF_REQUIRE(0); return 0; }
+char *vf_tk_string(u32 pos) { VF_ASSERT(0, "no strings in this file"); VF_REQUIRE(0); return 0; }
+void vf_tk_eol(u32 pos) { s64 iv; double dv; take(pos, T_EOL, &iv, &dv); }
 u32 vf_tk_iseof(u32 pos) { return (pos >> 4) > nseg; }
 static int nerrors;
-void vf_tk_error(u32 pos, char *msg) { nerrors++; }
+void vf_tk_error(u32 pos, char *msg) { nerrors++; error_point(msg); }
 /* operator expressions / function calls do not occur in the generated files: the recursive expression readers are cut here (ll2c --redirect-re) */
 u32 vf_cut_expr_i(char *self, u32 opcode) { VF_ASSERT(0, "operator expression reader reached although the file has none"); return 0; }
 u32 vf_cut_expr_v(char *self) { VF_ASSERT(0, "nested expression reader reached although the file has none"); return 0; }
@@ -89,26 +110,31 @@ void h_obj_select(void) {
   char *S = (char *)solverp;
   s32 objno = (s32)vf_nd32(); u32 multi = vf_ndbool();
   VF_REQUIRE(objno >= -1);                      /* invariant of objno_: -1 (default) or a value accepted by SetObjNo (h_set_objno) */
-  num_vars = (u32)vf_ndrange(1, MAXV); num_objs = (u32)vf_ndrange(0, MAXO);
-  nseg = (u32)vf_ndrange(1, NSEG);
+  num_objs = (u32)vf_ndrange(0, MAXO);
   u32 nb = 0, gseen[MAXO] = {0, 0, 0};
   for (u32 i = 0; i < NSEG; i++) {
-    if (i >= nseg) break;
     struct seg *s = &segs[i];
-    s->type = (u32)vf_ndrange(0, 2); s->idx = vf_nd32() & 0x7fffffff; s->otype = vf_nd32() & 0x7fffffff; s->ecode = vf_ndbool(); s->evar = vf_nd32() & 0x7fffffff;
-    s->ecoef = vf_nddouble(); s->nterms = vf_nd32() & 0x7fffffff;
+    s->type = seg_types[i]; s->idx = vf_nd32() & 0x7fffffff; s->otype = vf_nd32() & 0x7fffffff; s->ecode = vf_ndbool(); s->evar = vf_nd32() & 0x7fffffff;
+    s->ecoef = vf_nddouble(); s->nterms = seg_nt[i];
     for (u32 t = 0; t < MAXV; t++) { s->tvar[t] = vf_nd32() & 0x7fffffff; s->tcoef[t] = vf_nddouble(); }
     if (s->type == SEG_B) nb++;
     if (s->type == SEG_G && s->idx < MAXO) { VF_REQUIRE(gseen[s->idx] == 0); gseen[s->idx] = 1; }    /* at most one G segment per objective */
   }
   VF_REQUIRE(nb == 1);                          /* exactly one 'b' segment (a second one is a format error handled elsewhere) */
-  u32 flags = vf_ndbool();                      /* 0 or READ_BOUNDS_FIRST */
+  u32 flags = FLAGS;                            /* 0 or READ_BOUNDS_FIRST */
   tok_mismatch = 0; nerrors = 0; addobjs_calls = 0; nobj_added = 0; bad_access = 0; nexpr = 0;
   for (u32 i = 0; i < MAXO; i++) { robj[i].type_set = robj[i].nl_set = robj[i].lin_set = robj[i].nterms = 0; }
+  /* reference interpretation: does the file contain an out-of-range index / count? */
+  expect_bad = 0;
+  for (u32 i = 0; i < NSEG; i++) {
+    struct seg *s = &segs[i];
+    if (s->type == SEG_O) { if (s->idx >= num_objs || (s->ecode && s->evar >= num_vars)) expect_bad = 1; }
+    else if (s->type == SEG_G) { if (s->idx >= num_objs || s->nterms < 1 || s->nterms > num_vars) expect_bad = 1;
+      else for (u32 t = 0; t < MAXV; t++) { if (t < s->nterms && s->tvar[t] >= num_vars) expect_bad = 1; } }
+  }
   w_solver_set(S, (u32)objno, multi);
   u32 rc = w_read(S, num_vars, num_objs, 0, flags);
   VF_OBS(rc); VF_OBS(addobjs_calls); VF_OBS(nobj_added); VF_OBS(bad_access);
-  VF_ASSERT(!tok_mismatch, "reader consumes the token types of the NL format");
   /* ----- oracle ----- */
   u32 k = (u32)(objno < 0 ? -objno : objno); int specified = objno >= 0; int multiobj = multi && objno < 0;
   if (specified && k > num_objs) { VF_ASSERT(rc == 2, "objno beyond the file's objectives is rejected with an option error"); VF_ASSERT(addobjs_calls == 0, "nothing built after the rejection"); VF_WITNESS(); return; }
@@ -116,17 +142,7 @@ void h_obj_select(void) {
   u32 nexp = multiobj ? num_objs : ((k > 0 && num_objs > 0) ? 1 : 0);
   VF_ASSERT(!bad_access, "objective accessed beyond the number of objectives created (Problem does no index checking in release builds)");
   VF_ASSERT(nexp == 0 ? addobjs_calls == 0 : (addobjs_calls == 1 && nobj_added == nexp), "builder creates exactly the selected number of objectives");
-  /* first format error in file order (reference interpretation) */
-  int bad = 0;
-  for (u32 i = 0; i < NSEG; i++) {
-    if (i >= nseg) break;
-    struct seg *s = &segs[i];
-    if (s->type == SEG_O) { if (s->idx >= num_objs || (s->ecode && s->evar >= num_vars)) bad = 1; }
-    else if (s->type == SEG_G) { if (s->idx >= num_objs || s->nterms < 1 || s->nterms > num_vars) bad = 1;
-      else for (u32 t = 0; t < MAXV; t++) { if (t < s->nterms && s->tvar[t] >= num_vars) bad = 1; } }
-  }
-  VF_ASSERT((rc == 1) == (bad != 0), "read error iff the file has an out-of-range index/count");
-  VF_ASSERT(rc <= 2, "only ReadError / InvalidOptionValue are raised");
+  VF_ASSERT(rc == 0 && !expect_bad, "a file with an out-of-range index/count is rejected with a read error");
   if (rc != 0) { VF_WITNESS(); return; }
   int kth_has_O = 0;
   for (u32 r = 0; r < MAXO; r++) {
